@@ -5,3 +5,4 @@ INVARIANT C18_Hidden
 INVARIANT C18_Shown
 INVARIANT C18_Step
 INVARIANT C17_NoPanic
+INVARIANT KF_C18
